@@ -79,6 +79,13 @@ def configs(tier):
                 if comb == 'sepsum' and sp != 'rn2':
                     continue
                 cfgs.append({'kind': comb, 'f1': f1, 'f2': f2, 'space': sp})
+    # derived functionals over a LINEAR base: affine results (constant, translation) must not keep
+    # the linearity flag, which the scalar-multiple rewrites rely on
+    for der in (['quadpert_c', 'rightscal'], ['quadpert_a0', 'rightscal'], ['scalarsum', 'rightscal'],
+                ['translated', 'rightscal'], ['quadpert_c', 'rightscal_neg'], ['leftscal', 'rightscal'],
+                ['quadpert_c'], ['rightscal'], ['rightvec', 'rightscal']):
+        for sp in ('rn2', 'rn2wa'):
+            cfgs.append({'kind': 'derived', 'der': der, 'name': '@linear', 'space': sp})
     # factors / dividends that VANISH at points of the alphabet where their gradient does not: a
     # linear functional (zero on a hyperplane) and |x|^2 - 1 (zero on the unit sphere)
     for f1 in sorted(ADHOC):
@@ -130,6 +137,7 @@ class _Adhoc(object):
     opts = [{}]
     posdom = False
     dom = None
+    V = FR.V5
 
     def __init__(self, build, ref):
         self.build, self.ref = build, ref
@@ -235,7 +243,7 @@ def _build(cfg):
         return dict(f=spec.build(info.space, o), info=info, ref=spec.ref(info, o), V=spec.V,
                     dom=spec.dom(info, o) if spec.dom else (lambda z: True))
     if k == 'derived':
-        spec = FR.BY_NAME[cfg['name']]
+        spec = _spec(cfg['name'])
         info = FR.info(cfg['space'])
         o = spec.opts[0]
         f, ref = spec.build(info.space, o), spec.ref(info, o)
